@@ -7,6 +7,7 @@ import (
 	"go/printer"
 	"go/token"
 	"os"
+	"path/filepath"
 	"regexp"
 
 	"github.com/reedom/convergen/pkg/builder"
@@ -50,6 +51,7 @@ func NewParser(srcPath, dstPath string) (*Parser, error) {
 		Mode:       parserLoadMode,
 		BuildFlags: []string{"-tags", buildTag},
 		Fset:       fileSet,
+		Overlay:    overlayForPreviousOutput(srcPath, dstPath, dstStat),
 		ParseFile: func(fset *token.FileSet, filename string, src []byte) (*ast.File, error) {
 			stat, err := os.Stat(filename)
 			if err != nil {
@@ -98,6 +100,30 @@ func NewParser(srcPath, dstPath string) (*Parser, error) {
 		opts:    option.NewOptions(),
 		imports: util.NewImportNames(fileSrc.Imports),
 	}, nil
+}
+
+// overlayForPreviousOutput hides the content of a previously generated file from the package
+// loader. ParseFile below already skips that file, but "go list" still reads its package clause
+// and imports; a file truncated by an interrupted write (e.g. "package fo") would otherwise make
+// the loader see a second package in the directory. The overlay replaces it with a bare package
+// clause taken from the input file.
+func overlayForPreviousOutput(srcPath, dstPath string, dstStat os.FileInfo) map[string][]byte {
+	if dstStat == nil || !dstStat.Mode().IsRegular() {
+		return nil
+	}
+	srcStat, err := os.Stat(srcPath)
+	if err != nil || os.SameFile(srcStat, dstStat) {
+		return nil
+	}
+	header, err := parser.ParseFile(token.NewFileSet(), srcPath, nil, parser.PackageClauseOnly)
+	if err != nil || header.Name == nil {
+		return nil
+	}
+	absDst, err := filepath.Abs(dstPath)
+	if err != nil {
+		return nil
+	}
+	return map[string][]byte{absDst: []byte("package " + header.Name.Name + "\n")}
 }
 
 // Parse parses convergen annotations in the source code.
